@@ -483,12 +483,11 @@ class Tensor(object):
             ), f"Batch dim must match, got {self.shape[0]} and {other.shape[0]}"
 
         if self.dim() == 1:  # Special case
-            return Tensor(
-                [
-                    self.decompress_tucker_factors().cores[0]
-                    + other.decompress_tucker_factors().cores[0]
-                ]
-            )
+            if self.batch:
+                return Tensor(
+                    [(self.torch() + other.torch())[:, None, :, None]], batch=True
+                )
+            return Tensor([(self.torch() + other.torch())[None, :, None]])
 
         if self.batch:
             idxs = "bijk,baj->biak"
